@@ -348,7 +348,11 @@ func (r *atRun) runEpisode(idx int, ep *ATEpisode) *episodeObs {
 				stmts := foreign
 				sim.Go("at-foreign-racer", func() {
 					for k, st := range stmts {
-						sim.Park(fmt.Sprintf("at-foreign-race|%02d", k), "foreign writer (racing phase two)")
+						// let a tape-chosen number of other events pass first, so that
+						// the statement lands somewhere inside phase two
+						for d, n := 0, sim.Tape.Choose(12); d <= n; d++ {
+							sim.Park(fmt.Sprintf("at-foreign-race|%02d|%02d", k, d), "foreign writer (racing phase two)")
+						}
 						_, err := w.Bare.Exec(st.SQL, goArgs(st.Args)...)
 						sim.Logf("FOREIGN (racing) %s %v -> %v", st.SQL, st.Args, err)
 					}
